@@ -337,3 +337,104 @@ def fontinfo_tables(ctx, repo):
 
 
 C19 = [designspace_vocab, axis_maps, filename_rules, plist_and_glif, fontinfo_tables]
+
+
+# ---------------------------------------------------------------------------
+# C10
+# ---------------------------------------------------------------------------
+
+# OpenType specification, MVAR "Value tags" registry (tag -> table, field as named in fontTools).
+MVAR_REGISTRY = {
+    "hasc": ("OS/2", "sTypoAscender"), "hdsc": ("OS/2", "sTypoDescender"), "hlgp": ("OS/2", "sTypoLineGap"),
+    "hcla": ("OS/2", "usWinAscent"), "hcld": ("OS/2", "usWinDescent"),
+    "vasc": ("vhea", "ascent"), "vdsc": ("vhea", "descent"), "vlgp": ("vhea", "lineGap"),
+    "hcrs": ("hhea", "caretSlopeRise"), "hcrn": ("hhea", "caretSlopeRun"), "hcof": ("hhea", "caretOffset"),
+    "vcrs": ("vhea", "caretSlopeRise"), "vcrn": ("vhea", "caretSlopeRun"), "vcof": ("vhea", "caretOffset"),
+    "xhgt": ("OS/2", "sxHeight"), "cpht": ("OS/2", "sCapHeight"),
+    "sbxs": ("OS/2", "ySubscriptXSize"), "sbys": ("OS/2", "ySubscriptYSize"), "sbxo": ("OS/2", "ySubscriptXOffset"), "sbyo": ("OS/2", "ySubscriptYOffset"),
+    "spxs": ("OS/2", "ySuperscriptXSize"), "spys": ("OS/2", "ySuperscriptYSize"), "spxo": ("OS/2", "ySuperscriptXOffset"), "spyo": ("OS/2", "ySuperscriptYOffset"),
+    "strs": ("OS/2", "yStrikeoutSize"), "stro": ("OS/2", "yStrikeoutPosition"),
+    "unds": ("post", "underlineThickness"), "undo": ("post", "underlinePosition"),
+}
+
+
+def mvar_registry(ctx, repo):
+    from .exhaust import _struct_fields
+
+    ctx.rule("MVAR", "every MVAR value tag maps to the table field the OpenType registry assigns to it, and that field exists in the table's struct format", floor=50)
+    m = repo.mod("varLib/mvar.py")
+    ent = try_fold(m.const("MVAR_ENTRIES"), module_env(repo, m))
+    if not isinstance(ent, dict):
+        raise AnalysisError("MVAR_ENTRIES is not a foldable dict literal")
+    fields = {t: set(_struct_fields(repo, t)) for t in ("OS/2", "hhea", "vhea", "post")}
+    for tag, pair in sorted(ent.items()):
+        want = MVAR_REGISTRY.get(tag)
+        ok = want is not None and tuple(pair) == want
+        ctx.ob("MVAR", m.rel + ":MVAR_ENTRIES", f"'{tag}' -> {tuple(pair)}", ok, "" if ok else f"OpenType registry assigns '{tag}' to {want}")
+        t, f = pair
+        ok = f in fields.get(t, ())
+        ctx.ob("MVAR", m.rel + ":MVAR_ENTRIES", f"{t}.{f} is a field of the table", ok, "" if ok else "no such field: the value is silently never varied")
+    vals = [tuple(v) for v in ent.values()]
+    ctx.ob("MVAR", m.rel + ":MVAR_ENTRIES", f"{len(ent)} entries, no two tags share a field", len(set(vals)) == len(vals))
+    missing = sorted(set(MVAR_REGISTRY) - set(ent))
+    ctx.ob("MVAR", m.rel + ":MVAR_ENTRIES", "all 28 metric tags of the registry are present", not missing, "" if not missing else f"missing {missing}")
+
+
+def build_wiring(ctx, repo):
+    ctx.rule("BUILD", "every table builder of varLib (_add_*/_merge_*) is reached from build(), guarded by the exclude list entry of the table it writes", floor=12)
+    m = repo.mod("varLib/__init__.py")
+    b = m.func("build")
+    called = {}
+    for c in calls_in(b.node, nested=False):
+        nm = call_name(c)
+        if nm and (nm.startswith("_add_") or nm.startswith("_merge_")):
+            called[nm] = c
+    builders = sorted(q for q in m.funcs if "." not in q and (q.startswith("_add_") or q.startswith("_merge_")))
+    helper_of = {}
+    for q in builders:
+        for c in calls_in(m.funcs[q].node):
+            nm = call_name(c)
+            if nm in builders and nm != q:
+                helper_of.setdefault(nm, set()).add(q)
+    GUARD_TAG = {"_add_stat": "STAT", "_add_avar": "avar", "_add_BASE": "BASE", "_add_MVAR": "MVAR", "_add_HVAR": "HVAR", "_add_VVAR": "VVAR", "_merge_OTL": "GDEF", "_add_gvar": "gvar", "_merge_TTHinting": "cvar", "_add_GSUB_feature_variations": "GSUB", "_add_CFF2": "CFF2", "_add_COLR": "COLR"}
+    for q in builders:
+        if q in called:
+            conds = [norm(t) for t, pol in guard_conditions(called[q]) if pol]
+            tag = GUARD_TAG.get(q)
+            if q == "_add_fvar":
+                ctx.ob("BUILD", b.where, "_add_fvar called unconditionally", not conds, "" if not conds else f"fvar is only built under {conds}")
+                continue
+            ok = tag is not None and any(f"'{tag}' not in exclude" in c for c in conds)
+            ctx.ob("BUILD", b.where, f"{q} called under {conds}", ok, "" if ok else f"builder is not guarded by the exclude entry of the table it writes ({tag})")
+        else:
+            via = helper_of.get(q, set()) & (set(called) | {x for x in helper_of if helper_of[x] & set(called)})
+            ok = bool(via)
+            ctx.ob("BUILD", b.where, f"{q} reached through {sorted(via)}", ok, "" if ok else "table builder is defined but never called from build(): the table is missing from built fonts")
+    # masters and model travel together
+    for q in ("_add_gvar", "_add_MVAR", "_add_HVAR", "_add_VVAR", "_add_BASE", "_merge_OTL", "_add_CFF2", "_add_COLR", "_merge_TTHinting"):
+        c = called.get(q)
+        if c is None:
+            continue
+        args = [norm(a) for a in c.args]
+        ok = "model" in args and "master_fonts" in args and args.index("model") < args.index("master_fonts")
+        ctx.ob("BUILD", b.where, f"{q}({', '.join(args[:4])}) receives the model and the master list it was built from", ok, "" if ok else "a builder is given a master list that is not the one the model was computed from")
+    mdl = [n for n in walk_no_nested(b.node) if isinstance(n, ast.Assign) and norm(n.targets[0]) == "model"]
+    from ..slicer import Slicer
+
+    ok = False
+    detail = ""
+    if len(mdl) == 1 and isinstance(mdl[0].value, ast.Call) and mdl[0].value.args:
+        lv = Slicer(b.node).leaves(mdl[0].value.args[0])
+        src = {l.text for l in lv if l.kind == "attr"}
+        # the master-location list must come from ds.normalized_master_locs through order-preserving list comprehensions only
+        defs = [n for n in walk_no_nested(b.node) if isinstance(n, ast.Assign) and norm(n.targets[0]) == norm(mdl[0].value.args[0])]
+        shape = all(isinstance(n.value, ast.ListComp) and not any(call_name(c) in ("sorted", "set", "reversed") for c in calls_in(n.value)) for n in defs)
+        ok = "ds.normalized_master_locs" in src and shape
+        detail = "" if ok else f"model locations derive from {sorted(src)} (order-preserving: {shape})"
+    ctx.ob("BUILD", b.where, "VariationModel is built from ds.normalized_master_locs in source order", ok, detail or ("" if ok else "model master order no longer follows the designspace source order that master_fonts uses"))
+    mf = [n for n in walk_no_nested(b.node) if isinstance(n, ast.Assign) and norm(n.targets[0]) == "master_fonts"]
+    ok = bool(mf) and all("load_masters" in norm(n.value) or "master_fonts" in norm(n.value) for n in mf)
+    ctx.ob("BUILD", b.where, f"master_fonts = {[norm(n.value)[:50] for n in mf]}", ok)
+
+
+C10 = [mvar_registry, build_wiring, axis_maps]
